@@ -46,6 +46,8 @@ def cases(draw):
     val = st.one_of(st.sampled_from([1, 1, 2, 3, 16, 17, 255, 256, 257]), st.integers(1, 40), st.integers(1, vmax))
     pre = draw(st.lists(st.tuples(key, st.integers(1, 20)), min_size=0, max_size=6))
     kind = draw(st.sampled_from(["update_list", "update_list", "update_dict", "update_dict", "add", "add", "add_ngram", "add_ngram", "update_ngram", "update_ngram", "update_reentrant", "update_interrupted"]))
+    if cfg["kind"] == "hh" and draw(st.integers(0, 3)) == 0:
+        kind = "update_dict"  # for heavy hitters the order in which a dict's items are applied decides who keeps a cell
     op = {"op": kind}
     if kind == "update_list":
         op["keys"] = draw(st.lists(key, min_size=0, max_size=12))
@@ -58,6 +60,9 @@ def cases(draw):
         op["extra"] = draw(key)
     elif kind == "update_dict":
         op["items"] = [[k, draw(val)] for k in draw(st.lists(key, min_size=0, max_size=5, unique=True))]
+        if draw(st.booleans()):  # counts ascending in insertion order: any re-ordering by count (most_common, sorted) shows
+            vals = sorted(v for _, v in op["items"])
+            op["items"] = [[k, v] for (k, _), v in zip(op["items"], vals)]
         if log:
             tot = 0
             keep = []
